@@ -681,6 +681,12 @@ class Parser:
                 if tok.txt == '{':
                     # {...} protects space and ','
                     seq = self.arg_buffer(buf, 0).all()
+                    if buf.cur() is tok:
+                        # no closing '}': arg_buffer() has pushed back all
+                        # tokens, together with an error mark
+                        # --> skip the opening '{', otherwise we loop forever
+                        tok = buf.next()
+                        continue
                     if len(seq) == 1 and type(seq[0]) is defs.VoidToken:
                         # this was an empty {}
                         seq = []
